@@ -644,9 +644,7 @@ func handleZPOP(params internal.HandlerFuncParams) ([]byte, error) {
 		if err != nil {
 			return nil, err
 		}
-		if c > 0 {
-			count = c
-		}
+		count = c
 	}
 
 	if !keyExists {
